@@ -30,7 +30,7 @@ REPLAY_ATTEMPTS = 2
 BLOCKS = [1, 2, 3, 5, 8, 64, 8192]
 THROTTLES = [None, ("server", "read", 20000), ("server", "write", 3000), ("conn", "write", 5000), ("conn", "read", 7000),
              ("client", "write", 4000), ("client", "read", 2500), None, None]
-OP = st.tuples(st.sampled_from(["stor", "appe", "stor_off", "appe_off", "retr", "retr_off", "stor", "retr"]),
+OP = st.tuples(st.sampled_from(["stor", "appe", "stor_off", "appe_off", "retr", "retr_off", "stor", "retr", "upload_file", "download_file"]),
                st.integers(0, 1),  # file
                st.integers(0, 255),  # size selector
                st.integers(0, 6),  # pattern
@@ -155,7 +155,42 @@ async def _run(loop, case, ctx_info, tmp):
             cur = model.get(name)
             rec = dict(i=i, kind=kind, file=name, block=block)
             ctx_info["ops"].append(rec)
-            if kind in ("stor", "appe", "stor_off", "appe_off"):
+            if kind in ("upload_file", "download_file"):
+                # the high-level file API (Client.upload / Client.download with a client-side block size)
+                import pathlib
+                bs = [1, 3, 64, 1000, 8192][csel % 5]
+                local = pathlib.PurePosixPath("/local/f%d" % i)
+                await client.path_io.mkdir(local.parent, parents=True, exist_ok=True)
+                if kind == "upload_file":
+                    n = size_for(ssel, block, big)
+                    if bs < 8:
+                        n = min(n, 600)
+                    p = payload_for(n, pat, seed)
+                    async with client.path_io.open(local, "wb") as f:
+                        await f.write(p)
+                    rec.update(size=n, client_block=bs)
+                    await client.upload(local, name, write_into=True, block_size=bs)
+                    model[name] = p
+                    if n > block and n % block or special(p):
+                        ctx_info["nontrivial"] = True
+                    got = backend_bytes(name)
+                    if got != p:
+                        raise Violation(f"C01/upload_file/backend_content/{diff_kind(got, p)}",
+                                        dict(rec=rec, got_len=None if got is None else len(got), exp_len=len(p), first_diff=first_diff(got, p)))
+                else:
+                    if cur is None or (bs < 8 and len(cur) > 2000):
+                        rec["skipped"] = "nothing to download"
+                        continue
+                    rec.update(client_block=bs, size=len(cur))
+                    await client.download(name, local, write_into=True, block_size=bs)
+                    async with client.path_io.open(local, "rb") as f:
+                        got = await f.read()
+                    if special(cur) or (len(cur) > block and len(cur) % block):
+                        ctx_info["nontrivial"] = True
+                    if got != cur:
+                        raise Violation(f"C01/download_file/local_content/{diff_kind(got, cur)}",
+                                        dict(rec=rec, got_len=len(got), exp_len=len(cur), first_diff=first_diff(got, cur)))
+            elif kind in ("stor", "appe", "stor_off", "appe_off"):
                 n = size_for(ssel, block, big)
                 p = payload_for(n, pat, seed)
                 off = 0
